@@ -162,22 +162,113 @@ def _fits(value, gql_type):
 _SHARED = {}
 
 
+# ---- the family of error classes resolvers raise (all are the library's ResolverError)
+class CodedError(ResolverError):
+    """one-argument constructor; extensions fixed by the class"""
+
+    def __init__(self, message):
+        super().__init__(message, extensions={"code": "CODED"})
+
+
+class NotFound(ResolverError):
+    """two required positional arguments; message and extensions computed in __init__"""
+
+    def __init__(self, kind, ident):
+        super().__init__("%s %r not found" % (kind, ident), extensions={"kind": kind, "id": ident})
+        self.kind, self.ident = kind, ident
+
+
+class Denied(ResolverError):
+    """required keyword-only argument"""
+
+    def __init__(self, *, action, reason="policy"):
+        super().__init__("%s denied (%s)" % (action, reason), extensions={"action": action, "reason": reason})
+        self.action = action
+
+
+class Throttled(ResolverError):
+    """three positional arguments; `extensions` is a property computed from other attributes"""
+
+    def __init__(self, message, retry_after, scope):
+        self.retry_after, self.scope = retry_after, scope
+        super().__init__(message)
+
+    @property
+    def extensions(self):
+        return {"retry_after": self.retry_after, "scope": self.scope}
+
+    @extensions.setter
+    def extensions(self, _value):
+        pass
+
+
+class Quiet(ResolverError):
+    """positional + keyword-only arguments, no extensions at all"""
+
+    def __init__(self, what, where, *, level):
+        super().__init__("%s at %s [%s]" % (what, where, level))
+
+
+ERROR_FAMILY = {
+    "ResolverError": lambda a, k: ResolverError(*a, **k),
+    "CodedError": lambda a, k: CodedError(*a, **k),
+    "NotFound": lambda a, k: NotFound(*a, **k),
+    "Denied": lambda a, k: Denied(*a, **k),
+    "Throttled": lambda a, k: Throttled(*a, **k),
+    "Quiet": lambda a, k: Quiet(*a, **k),
+}
+
+# (class, args, kwargs) samples
+ERROR_SAMPLES = [
+    ["ResolverError", ["plain"], {}],
+    ["ResolverError", ["with ext"], {"extensions": {"code": 1}}],
+    ["ResolverError", [""], {"extensions": {}}],
+    ["CodedError", ["coded"], {}],
+    ["NotFound", ["user", 42], {}],
+    ["NotFound", ["doc", "x/y"], {}],
+    ["Denied", [], {"action": "read"}],
+    ["Denied", [], {"action": "write", "reason": "quota"}],
+    ["Throttled", ["slow down", 1.5, "ip"], {}],
+    ["Quiet", ["glitch", "edge"], {"level": "warn"}],
+]
+
+
+def make_error(act):
+    """act = ["raise_cls", class name, args, kwargs, shared]"""
+    _k, name, args, kwargs, shared = act
+    if shared:
+        key = repr((name, args, sorted(kwargs.items())))
+        if key not in _SHARED:
+            _SHARED[key] = ERROR_FAMILY[name](args, kwargs)
+        return _SHARED[key]
+    return ERROR_FAMILY[name](args, kwargs)
+
+
+def _log_raise(ctx, info, err):
+    ctx["raised"].append(list(info.path))
+    ext = err.extensions
+    ctx.setdefault("raised_ext", []).append([list(info.path), dict(ext) if ext else None, type(err).__name__])
+
+
 def _resolve(sname, ctx, info, args):
     from py_gql.schema import unwrap_type
     key = path_key(info.path)
     act = ctx["world"].get(key)
+    if act is not None and act[0] == "raise_cls":
+        err = make_error(act)
+        _log_raise(ctx, info, err)
+        raise err
     if act is not None and act[0] == "raise_shared":
         # one exception instance per (message, extensions), reused by every field and request
-        ctx["raised"].append(list(info.path))
         k = repr((act[1], act[2]))
         if k not in _SHARED:
             _SHARED[k] = ResolverError(act[1], extensions=act[2]) if act[2] is not None else ResolverError(act[1])
+        _log_raise(ctx, info, _SHARED[k])
         raise _SHARED[k]
     if act is not None and act[0] == "raise":
-        ctx["raised"].append(list(info.path))
-        if act[2] is not None:
-            raise ResolverError(act[1], extensions=act[2])
-        raise ResolverError(act[1])
+        err = ResolverError(act[1], extensions=act[2]) if act[2] is not None else ResolverError(act[1])
+        _log_raise(ctx, info, err)
+        raise err
     if act is not None and act[0] == "null":
         value = None
     elif act is not None and act[0] == "value" and _fits(decode_value(act[1]), info.field_definition.type):
@@ -332,9 +423,12 @@ def gen_world(rng, paths, nfail):
     for p, pt in rng.sample(paths, min(nfail, len(paths))):
         t = pt[1] if pt[0] == "nn" else pt
         r = rng.random()
-        if r < 0.1:
+        if r < 0.08:
             act = ["raise_shared", rng.choice(["not found", "denied"]), rng.choice([None, {"code": 404}])]
-        elif r < 0.4:
+        elif r < 0.3:
+            smp = rng.choice(ERROR_SAMPLES)
+            act = ["raise_cls", smp[0], smp[1], smp[2], rng.random() < 0.3]
+        elif r < 0.45:
             act = ["raise", rng.choice(MSGS), rng.choice(EXTS)]
         elif r < 0.75:
             act = ["null"]
@@ -445,7 +539,22 @@ FLOAT_RETURN_CASES = [
     ("A", "{ echo(f: 1e308) }", {}),
 ]
 
-EXEC_CORPUS = [
+def _family_corpus():
+    out = []
+    for smp in ERROR_SAMPLES:
+        act = ["raise_cls", smp[0], smp[1], smp[2], False]
+        out.append(("A", "{ a s o { a on { s } } lo { id a } }",
+                    {"a": act, "o/on/s": act, "lo/1/a": act, "lo/0/id": act}))
+    for smp in (ERROR_SAMPLES[4], ERROR_SAMPLES[6], ERROR_SAMPLES[8]):
+        act = ["raise_cls", smp[0], smp[1], smp[2], True]
+        out.append(("A", "{\n  a\n  o {\n      a\n  }\n  lo { a }\n}", {"a": act, "o/a": act, "lo/0/a": act, "lo/1/a": act}))
+    out.append(("B", "{ me { id name friends { id } } }",
+                {"me/name": ["raise_cls", "NotFound", ["name", 1], {}, False],
+                 "me/friends/0/id": ["raise_cls", "Denied", [], {"action": "see"}, False]}))
+    return out
+
+
+EXEC_CORPUS = _family_corpus() + [
     # one ResolverError instance raised by several fields, then again by a later, shorter request
     ("A", "{\n  a\n  s\n  o {\n         a\n  }\n}", {"a": ["raise_shared", "not found", {"code": 404}],
                                                         "s": ["raise_shared", "not found", {"code": 404}],
